@@ -667,6 +667,23 @@ def run(ctx):
                    "the geometric selection of a cut-out (shapely intersects on lanelet polygons) enters the model as one "
                    "boolean per lanelet; the harness computes it from the cell coordinates with a separating-axis test",
                    "harness/props/c10.py (network generator, statement oracle, payload hashes, Coq term printer)"]
+    ctx.trusted.insert(3, "harness/props/c10_src.py: parser of the syntax trees of LaneletNetwork.cleanup_lanelet_references / "
+                          "cleanup_traffic_sign_references / cleanup_traffic_light_references (assignment by assignment, into "
+                          "rules) and remove_lanelet / remove_traffic_sign / remove_traffic_light / remove_intersection (which "
+                          "dictionary, where the cleanup call stands) into coq/Gen/Src_network.v on every run (fail-closed); "
+                          "C10_cleanup_is_source / C10_remove_is_source prove the parsed programs, run by the interpreter of "
+                          "Model/NetworkSrc.v, equal to the functions of Model/Network.v on every network; trusted: the parser "
+                          "and its reading of the accepted shapes (sets / lists of ids as lists compared as sets, "
+                          "x.intersection(existing) = filter by membership, _F is what property F returns); the Scenario-level "
+                          "methods and the cut-outs are tied by correspondence only")
+    from props import c10_src
+    try:
+        changed = c10_src.generate()
+        ctx.notes.append(f"Gen/Src_network.v regenerated from the source ({'changed' if changed else 'unchanged'})")
+    except Exception as e:   # SourceShapeError, SyntaxError, OSError: the model is no longer shown to be the source
+        ctx.proof_breaks.append({"theorem": "source parser:Gen/Src_network.v (C10_cleanup_is_source / C10_remove_is_source)",
+                                 "where": "harness/props/c10_src.py", "log": str(e)})
+        ctx.log(f"proof_broken theorem=C10_*_is_source (source parser: {e})")
     ctx.build_props(extra_targets=["Corr/C10.vo"])
     if ctx.tier == "thorough":
         ctx.coqchk()
